@@ -533,25 +533,30 @@ class ExternalOptimizerMixin(Optimizer):
 
         terminated = False
         client_data = self._setup()
-        while not terminated:
-            last_model = None
-            optimum_found = False
-            for obj in objs:
-                 obj.val = None
-            self._pareto_setup()
-            while not optimum_found:
-                optimum_found = self._pareto_check_progress(client_data, objs)
-                if not optimum_found:
-                    last_model = self.get_model()
-                    for obj in objs:
-                        obj.val = self.get_value(obj.goal.term())
-            self._pareto_cleanup()
-            if last_model is not None:
-                yield last_model, [cast(FNode, obj.val) for obj in objs]
-                self._pareto_block_model(client_data, objs)
-            else:
-                terminated = True
-        self._cleanup(client_data)
+        try:
+            while not terminated:
+                last_model = None
+                optimum_found = False
+                for obj in objs:
+                     obj.val = None
+                self._pareto_setup()
+                try:
+                    while not optimum_found:
+                        optimum_found = self._pareto_check_progress(client_data, objs)
+                        if not optimum_found:
+                            last_model = self.get_model()
+                            for obj in objs:
+                                obj.val = self.get_value(obj.goal.term())
+                finally:
+                    self._pareto_cleanup()
+                if last_model is not None:
+                    yield last_model, [cast(FNode, obj.val) for obj in objs]
+                    self._pareto_block_model(client_data, objs)
+                else:
+                    terminated = True
+        finally:
+            # also reached when the caller abandons the generator
+            self._cleanup(client_data)
 
     def _setup(self) -> List[FNode]:
         self.push()
